@@ -318,6 +318,38 @@ func runC13(c *Ctx) {
 		return nil
 	}
 	fl.Exit = func(fr *Frame, st string, ret *ssa.Return) []string {
+		// a boolean answered by an inlined helper is accepted by the caller's branch as "evaluated in
+		// the helper": so the helper's answer itself has to be a constant, a comparison of the tracked
+		// terms, or one of the enumerated forms - not an estimate made on the raw operands
+		// (bits.Len64(quantity)+bits.Len64(minimum)-bits.Len64(interval) > 64)
+		if fr.Parent != nil {
+			o := parseOtype(st)
+			for _, rv := range returnedValues(ret) {
+				bt, isB := rv.Type().Underlying().(*types.Basic)
+				if !isB || bt.Kind() != types.Bool {
+					continue
+				}
+				if _, isC := rv.(*ssa.Const); isC {
+					continue
+				}
+				if _, isPhi := rv.(*ssa.Phi); isPhi {
+					continue // assembled from branches, each judged as a branch
+				}
+				if eval(fr, o, rv, true) != -1 {
+					continue
+				}
+				base, _ := condOf(rv)
+				bs := p.Sym(base).String()
+				switch {
+				case strings.HasPrefix(bs, "(*math/big.Int).IsUint64("):
+				case isProductCallResult(p, base):
+				case strings.HasPrefix(bs, "(math/bits.Mul64(") || strings.Contains(bs, " math/bits.Mul64("):
+				case strings.Contains(bs, "!= nil)") || strings.Contains(bs, "== nil)"):
+				default:
+					undecided = append(undecided, fmt.Sprintf("the helper %s answers %s at %s, which is not a comparison of {0, minimum, Interval/Quantity, Interval, Quantity}", fr.Fn.Name(), bs, p.InstrPos(ret)))
+				}
+			}
+		}
 		if fr.Parent == nil {
 			ri := rets[ret]
 			if ri == nil {
